@@ -56,35 +56,42 @@ def replay_of(root, reporter, mode, extra=None):
 # ---------------------------------------------------------------------------------------
 # classification of scenario corners that are known findings
 # ---------------------------------------------------------------------------------------
+def test_corners(s, t, mode):
+    """signatures of the known-finding corners this test is itself in"""
+    sigs = set()
+    if t.skip:
+        return sigs
+    a_s, a_t = L.applicable(s, t)
+    acts = (t.setup if a_s else []) + t.body + (t.teardown if a_t else [])
+    died = False
+    skipped = False
+    for a in acts:
+        if a[0] == "skip":
+            skipped = True
+        if a[0] == "die":
+            died = True
+            if skipped:
+                sigs.add("skip-then-die")
+            if mode != "forked" and a[1] in ("exit", "_exit") and a[2] == 0:
+                sigs.add("inproc-exit0")
+            break
+    if t.kill and not died:
+        point, nth, how = t.kill
+        if point in ("after_completion", "at_stop") or (point == "after_write" and nth >= len(t.body)):
+            if how[0] == "sig":
+                sigs.add("die-after-completion")
+        elif skipped:
+            sigs.add("skip-then-die")
+        if mode != "forked" and how[0] != "sig" and how[1] == 0 and point not in ("after_completion", "at_stop"):
+            sigs.add("inproc-exit0")
+    return sigs
+
+
 def corners(root, mode):
     """signatures of the known-finding corners present in the scenario"""
     sigs = set()
     for s, t in root.tests():
-        if t.skip:
-            continue
-        a_s, a_t = L.applicable(s, t)
-        acts = (t.setup if a_s else []) + t.body + (t.teardown if a_t else [])
-        died = False
-        skipped = False
-        for a in acts:
-            if a[0] == "skip":
-                skipped = True
-            if a[0] == "die":
-                died = True
-                if skipped:
-                    sigs.add("skip-then-die")
-                if mode != "forked" and a[1] in ("exit", "_exit") and a[2] == 0:
-                    sigs.add("inproc-exit0")
-                break
-        if t.kill and not died:
-            point, nth, how = t.kill
-            if point in ("after_completion", "at_stop") or (point == "after_write" and nth >= len(t.body)):
-                if how[0] == "sig":
-                    sigs.add("die-after-completion")
-            elif skipped:
-                sigs.add("skip-then-die")
-            if mode != "forked" and how[0] != "sig" and how[1] == 0 and point not in ("after_completion", "at_stop"):
-                sigs.add("inproc-exit0")
+        sigs |= test_corners(s, t, mode)
     return sigs
 
 
@@ -239,6 +246,12 @@ def check_C01(chk):
             bad = any_bad(mr)
         failed = run.exit != 0
         if failed != bad:
+            if mode == "forked" and cs:
+                # a known corner excuses a passing verdict only when every test that failed or ended abnormally is
+                # itself in such a corner: another dying or failing test in the same run must still fail the run
+                tcs = {t.name: test_corners(s_, t, mode) for s_, t in root.tests()}
+                if any((o[1] > 0 or o[3] > 0) and not tcs.get(nm) for nm, o in mr.own.items()):
+                    cs = set()
             sig = sorted(cs)[0] if cs else "verdict-%s-%s" % (rep, mode if isinstance(mode, str) else "single")
             chk.violation(sig, "verdict %s but %s (reporter %s, mode %s)" % (
                 "failure" if failed else "success",
@@ -278,9 +291,12 @@ def check_C03(chk):
         rp = lambda extra=None: replay_of(root, rep, mode, {"stdout": run.stdout[-2500:], **(extra or {})})
         own = mr.own
         # per-test credits
+        tcs = {t.name: sorted(test_corners(s_, t, mode)) for s_, t in root.tests()} if mode == "forked" else None
         for name, delta in L.log_tdone(run):
             if delta != own[name]:
-                chk.violation(sigp + "credit", "test %s credited %s but its own results are %s (passes, failures, skips, exceptions)" % (name, delta, own[name]), rp())
+                # in a forked run a known corner excuses the credit of the test that is in it, not its neighbours'
+                sg = sigp + "credit" if tcs is None else (tcs[name][0] if tcs.get(name) else "credit")
+                chk.violation(sg, "test %s credited %s but its own results are %s (passes, failures, skips, exceptions)" % (name, delta, own[name]), rp())
         # totals and subtotals
         sd = L.log_sdone(run)
         tot = sd[-1][3] if sd else None
@@ -498,6 +514,20 @@ def check_C02(chk):
     fixed = corner_cases(reporters=("text",), which=("skip-then-die", "die-after-completion"))
     cases = fixed + cases
     victims = [1] * (len(fixed) - 1) + [0] + victims
+    # histories in which the test before the dying one called skip_test() and died itself (no completion notice
+    # in between): whatever the reader remembers of that test, the next one is one exception all the same
+    T, S = L.Test, L.Suite
+    for rep in (("text", "cute") if chk.tier == "quick" else ("text", "cute", "xml", "libxml", "cdash")):
+        for how in ((("sig", 11), ("exit", 0)) if chk.tier == "quick" else HOWS):
+            hist = [
+                S(0, children=[T(0, body=[("skip",), ("die", "sig", 9)]), T(1, body=[("die", how[0], how[1])]), T(2, body=[("c", 1)])]),
+                S(0, children=[T(0, body=[("c", 1)]), T(3, body=[("c", 1), ("skip",), ("die", "sig", 11)]),
+                               T(1, body=[("c", 1), ("c", 0), ("die", how[0], how[1])]), T(2, body=[("c", 1)])]),
+                S(0, children=[S(1, children=[T(0, body=[("skip",), ("die", "exit", 3)])]), T(1, body=[("c", 1)], kill=("after_body", 0, how)), T(2, body=[("c", 0)])]),
+            ]
+            for root in hist:
+                cases.append((root, rep, "forked"))
+                victims.append(1)
     runs, mrs = run_cases(drv, cases)
     correspondence(chk, cases, runs, mrs)
     # reference runs without the dying test: the neighbours must be credited the same
@@ -522,7 +552,10 @@ def check_C02(chk):
         refs = {k: dict(L.log_tdone(r)) for k, r in zip(keys, rruns)}
     for (root, rep, mode), victim, run, mr, rc in zip(cases, victims, runs, mrs, ref_cases):
         vname = "t%d" % victim
-        cs = corners(root, mode)
+        # a known corner excuses only the test that is in it (and the verdict when no other test died): a dying
+        # test that follows a skip_test()-then-die test is still one exception, and its neighbours still get their own
+        tcs = {t.name: test_corners(s_, t, mode) for s_, t in root.tests()}
+        cs = tcs.get(vname, set())
         sig0 = sorted(cs)[0] if cs else None
         rp = lambda: replay_of(root, rep, mode, {"dying_test": vname, "stdout": run.stdout[-2000:]})
         if run.timeout:
@@ -546,10 +579,12 @@ def check_C02(chk):
         for name, delta in td.items():
             if name == vname:
                 continue
+            ncs = sorted(tcs.get(name, set()))
+            nsig = ncs[0] if ncs else None
             if delta != own[name]:
-                chk.violation(sig0 or "neighbour-own", "test %s credited %s, its own results are %s (test %s died)" % (name, delta, own[name], vname), rp())
+                chk.violation(nsig or "neighbour-own", "test %s credited %s, its own results are %s (test %s died)" % (name, delta, own[name], vname), rp())
             if name in ref and ref[name] != delta:
-                chk.violation(sig0 or "neighbour-ref", "test %s credited %s but %s when the dying test %s is absent" % (name, delta, ref[name], vname), rp())
+                chk.violation(nsig or "neighbour-ref", "test %s credited %s but %s when the dying test %s is absent" % (name, delta, ref[name], vname), rp())
         missing = [n for n in ref if n not in td]
         if missing:
             chk.violation(sig0 or "neighbour-not-run", "tests %s did not run" % missing, rp())
@@ -559,6 +594,13 @@ def check_C02(chk):
 # ---------------------------------------------------------------------------------------
 # C04: order independence in forking mode
 # ---------------------------------------------------------------------------------------
+def shape_str(n):
+    """a suite tree in one line: s0[t0 s1[t1 t2] t3]"""
+    if isinstance(n, L.Test):
+        return n.name
+    return "%s[%s]" % (n.name, " ".join(shape_str(c) for c in n.children))
+
+
 def check_C04(chk):
     import copy
     drv = setup(chk, ["Properties_C04.v"])
@@ -596,6 +638,28 @@ def check_C04(chk):
             rep = chk.rng.choice(["text", "cute", "xml"])
             cases.append((root, rep, "forked"))
             groups.append(g)
+        # the same tests in suites of different shape: some of them in a sub-suite (which runs before the own
+        # tests of the enclosing suite, whatever the registration order), at the front, in the middle, at the end,
+        # in two sub-suites; under every reporter that says something about a single test, so that what is said
+        # about a test after a sub-suite that ended with a failure can be compared with what is said when it is alone
+        if g % 2 == 1 or g < 2 or chk.tier == "thorough":
+            n = len(tests)
+            flat = list(range(n))
+            shapes = [None, (0, 1), (n - 1, n), (chk.rng.randrange(0, n - 1), n) if n > 1 else (0, 1), "two"]
+            for rep in ("cute", "xml", "text"):
+                for shp in shapes:
+                    root = L.Suite(0)
+                    kids = [copy.deepcopy(tests[i]) for i in flat]
+                    if shp is None:
+                        root.children = kids
+                    elif shp == "two":
+                        h = max(1, n // 2)
+                        root.children = [L.Suite(1, children=kids[:h])] + ([L.Suite(2, children=kids[h:n - 1])] if n - 1 > h else []) + kids[max(h, n - 1):]
+                    else:
+                        a, b = shp
+                        root.children = kids[:a] + [L.Suite(1, children=kids[a:b])] + kids[b:]
+                    cases.append((root, rep, "forked"))
+                    groups.append(g)
     runs, mrs = run_cases(drv, cases)
     correspondence(chk, cases, runs, mrs)
     seen = {}
@@ -605,7 +669,7 @@ def check_C04(chk):
             continue
         cs = corners(root, mode)
         sig0 = sorted(cs)[0] if cs else None
-        order = [t.name for s, t in root.tests()]
+        order = shape_str(root)
         for name, delta in L.log_tdone(run):
             key = (g, name)
             if delta != mr.own[name]:
